@@ -64,13 +64,14 @@ def make_solver(case, ssm, vf):
     st = {"filter": pdq.strategy_filter, "fixedinterval": pdq.strategy_smoother_fixedinterval,
           "fixedpoint": pdq.strategy_smoother_fixedpoint}[case["strat"]]()
     cal = case["calib"]
+    ci = {"constraint_init": constraint} if case.get("cinit") else {}
     if cal == "none":
-        solver = pdq.solver(strategy=st, constraint=constraint)
+        solver = pdq.solver(strategy=st, constraint=constraint, **ci)
     elif cal in ("mle", "mle_nocorr"):
         solver = pdq.solver_mle(strategy=st, constraint=constraint,
-                                correct_asymptotic_underconfidence=(cal == "mle"))
+                                correct_asymptotic_underconfidence=(cal == "mle"), **ci)
     else:
-        solver = pdq.solver_dynamic(strategy=st, constraint=constraint,
+        solver = pdq.solver_dynamic(strategy=st, constraint=constraint, **ci,
                                     re_linearize_after_calibration=(cal == "dyn_relin"),
                                     **({"stop_gradient_through_calibration": False} if case.get("stopgrad") is False else {}))
     return solver, constraint
